@@ -133,8 +133,48 @@ func genC02FreeList(r *rng, tier string, add func(g *G)) {
 	}
 }
 
+// directed: a database that has grown (several buckets, an overflow chain on bucket 0) and is then
+// EMPTIED before a clean Close: the table keeps its shape (delete never unlinks buckets), and the
+// next session must find an empty, fully usable database.
+func genC02Emptied(r *rng, tier string, add func(g *G)) {
+	n := scale(tier, 3, 30)
+	for i := 0; i < n; i++ {
+		g := newG(r.fork(), fmt.Sprintf("C02/emptied/%d", i))
+		g.dumpEvery = 0
+		g.params(1<<16, 512, 0.5, false)
+		g.open()
+		g.keys = append(g.collidingKeys(40+g.r.intn(30), 14, "z"), g.randomKeys(10)...)
+		for _, k := range g.keys {
+			g.put(k, g.r.bytes(3))
+		}
+		g.dump()
+		for _, k := range g.keys {
+			g.del(k)
+		}
+		g.count()
+		g.dump()
+		g.close()
+		g.open()
+		g.c.Steps[len(g.c.Steps)-1].Expect = []string{"open ok recovered=0"}
+		g.dump()
+		g.get([]byte("never-stored"))
+		g.checkAll()
+		for _, k := range g.keys[:20] {
+			g.put(k, g.r.bytes(5))
+		}
+		g.checkAll()
+		g.dump()
+		g.close()
+		g.open()
+		g.checkAll()
+		g.c.tag("emptied_grown_index_restart")
+		add(g)
+	}
+}
+
 func genC02(r *rng, tier string, add func(g *G)) {
 	genC02FreeList(r, tier, add)
+	genC02Emptied(r, tier, add)
 	n := scale(tier, 50, 800)
 	for i := 0; i < n; i++ {
 		g := newG(r.fork(), fmt.Sprintf("C02/%d", i))
@@ -414,13 +454,44 @@ func genC05Directed(r *rng, tier string, add func(g *G)) {
 	}
 }
 
+// directed: a delete record in an eligible segment forces ALL older segments into the compaction,
+// also one that was sealed while still smaller than compactionMinSegmentSize (the next record did
+// not fit). Otherwise the delete record is dropped while the put it cancels stays in the log.
+func genC05SmallOlder(r *rng, tier string, add func(g *G)) {
+	n := scale(tier, 6, 60)
+	for i := 0; i < n; i++ {
+		g := newG(r.fork(), fmt.Sprintf("C05/small-older/%d", i))
+		g.dumpEvery = 0
+		g.params(1024, 700, 0.01, false)
+		g.open()
+		k, p, big := []byte("k"), []byte("p"), []byte("big")
+		g.keys = [][]byte{k, p, big}
+		g.put(k, g.r.bytes(5+g.r.intn(10)))
+		g.put(p, g.r.bytes(80+g.r.intn(30)))
+		g.put(big, g.r.bytes(390+g.r.intn(20))) // does not fit: segment 0 is sealed below the minimum size
+		g.del(k)
+		g.dump()
+		g.compact()
+		g.checkAll()
+		g.dump()
+		g.c.tag("older_segment_below_min_size")
+		g.do("kill")
+		g.isOpen = false
+		g.open()
+		g.checkAll()
+		g.dump()
+		add(g)
+	}
+}
+
 func genC05(r *rng, tier string, add func(g *G)) {
 	genC05Directed(r, tier, add)
+	genC05SmallOlder(r, tier, add)
 	n := scale(tier, 60, 1500)
 	for i := 0; i < n; i++ {
 		g := newG(r.fork(), fmt.Sprintf("C05/%d", i))
 		g.dumpEvery = 0
-		g.params([]int{600, 700, 900}[g.r.intn(3)], 512, []float32{0.0001, 0.0001, 0.15, 0.3}[g.r.intn(4)], false)
+		g.params([]int{600, 700, 900}[g.r.intn(3)], []int{512, 512, 560, 640}[g.r.intn(4)], []float32{0.0001, 0.0001, 0.15, 0.3}[g.r.intn(4)], false)
 		g.open()
 		g.keys = g.randomKeys(10)
 		fill := 20 + g.r.intn(40)
@@ -770,8 +841,17 @@ func genC12(r *rng, tier string, add func(g *G)) {
 			}
 			g.do("bplan "+name, "bplan ok")
 			snap := copyMap(g.ref)
+			busyAt := -1
+			if i%2 == 0 {
+				busyAt = g.r.intn(nseg + 1)
+			}
 			for s := 0; s < nseg; s++ {
 				writer()
+				if s == busyAt {
+					// a compaction (explicit or the background worker) that fires during the backup
+					g.do("compactbusy", "compact err busy")
+					g.c.tag("compaction_attempts_during_backup")
+				}
 				g.do("bcopy "+name, "bcopy ok")
 			}
 			writer()
@@ -867,7 +947,15 @@ func genC15Steady(r *rng, tier string, add func(g *G)) {
 		// segment that stays has less than 2048 dead bytes, i.e. at least 1536 live bytes, so
 		// live/1500 segments plus the ones being written bound the count. Only a quarter of the keys is
 		// overwritten per session, so a segment's garbage accumulates over several sessions.
-		g.params(4096, 512, 0.5, false)
+		withBackup := i%2 == 1
+		if withBackup {
+			// periodic backups in the workload, and a minimum segment size for compaction well above
+			// the header: a segment that is sealed while small could never be compacted again
+			g.params(4096, 2048, 0.5, false)
+			g.c.tag("steady_state_with_backups")
+		} else {
+			g.params(4096, 512, 0.5, false)
+		}
 		g.open()
 		nkeys := 80 + g.r.intn(60)
 		g.keys = nil
@@ -887,6 +975,9 @@ func genC15Steady(r *rng, tier string, add func(g *G)) {
 			g.compact()
 			for j := 0; j < nkeys/4; j++ {
 				g.put(g.pick(), g.r.bytes(40+g.r.intn(20)))
+				if withBackup && j == nkeys/8 {
+					g.do(fmt.Sprintf("backup s%d", c%2), "backup ok")
+				}
 			}
 			nseg := 0
 			for _, nm := range g.im.FS.List(g.im.Dir) {
